@@ -284,12 +284,17 @@ def token_sections(ctx, pid):
     s = Section("token-predicate-contracts", "smt",
                 rule="Token.is_unquoted_string / is_parameter_name / is_numeric / is_string / is_begin_aggregation / is_end_statement / "
                      "is_delimiter / is_comment / is_decimal / is_non_decimal / is_datetime / is_quoted_string / is_simple_value == their "
-                     "definitions over the grammar tables and the decoder's acceptance predicates")
+                     "definitions over the grammar tables and the decoder's acceptance predicates; decode_unquoted_string returns the text "
+                     "exactly when it has no comment delimiter, white space or reserved character, is no aggregation keyword or end "
+                     "statement in any letter case and does not decode as a date/time (ODL family: and is an identifier); is_identifier; "
+                     "for_try_except")
     t0 = time.time()
     s_contracts = ce.token_contracts()
     verify_contracts(s, s_contracts, EncTheory, ["pvl.token"], jobs=ctx.jobs)
     # ODLDecoder.is_identifier (a character loop): assumed in T_dec, discharged here with the search-loop rule over the characters
     verify_contracts(s, ce.identifier_contracts(), EncTheory, ["pvl.decoder"], jobs=1)
+    # the decoder's own definition of the unquoted-string class (PVL and ODL families)
+    verify_contracts(s, ce.unquoted_contracts(), EncTheory, ["pvl.decoder"], jobs=4)
     # pvl.decoder.for_try_except (assumed contract in T_dec): search loop over the zipped tuples
     verify_contracts(s, ce.for_try_except_contracts(), EncTheory, ["pvl.decoder"], jobs=1)
     s.assumptions += [ENC_ASSUMPTIONS[0], ENC_ASSUMPTIONS[3],
